@@ -47,9 +47,14 @@ fn text() -> impl Strategy<Value = String> {
 }
 
 fn case_strategy() -> impl Strategy<Value = Case> {
-    proptest::collection::vec((text(), text()), 0..20).prop_map(|v| {
+    // one form in twelve carries a filler field that brings the encoded form close to the request buffer (7 to 9.8 KB of one- or three-byte characters):
+    // "within the request buffer" includes request lines of eight and nine thousand bytes
+    let filler = proptest::option::weighted(0.08, (7000usize..9800, prop::sample::select(vec!["a", "a", "é", "%"])).prop_map(|(n, unit)| { let per = match unit { "a" => 1, "%" => 3, _ => 6 }; unit.repeat((n / per).max(1)) }));
+    (proptest::collection::vec((text(), text()), 0..20), filler).prop_map(|(v, filler)| {
         let mut seen = std::collections::HashSet::new();
-        Case { fields: v.into_iter().filter(|(k, _)| seen.insert(k.clone())).collect() }
+        let mut fields: Vec<(String, String)> = v.into_iter().filter(|(k, _)| seen.insert(k.clone())).collect();
+        if let Some(f) = filler { if seen.insert("filler".to_string()) { fields.truncate(3); fields.push(("filler".to_string(), f)); } }
+        Case { fields }
     })
 }
 
@@ -91,13 +96,15 @@ pub fn eval(ctx: &Ctx, c: &Case) -> Verdict {
     // routes 3 and 4: echo endpoints
     let mut want_lines: Vec<String> = c.fields.iter().map(|(k, v)| format!("{} is {}", k, v)).collect();
     want_lines.sort();
-    if encoded.len() < 8000 {
+    if encoded.len() < 9990 {
         let reqs: Vec<(&str, Vec<u8>)> = vec![
             ("get-echo", format!("GET /form-get-method?{} HTTP/1.1\r\nHost: localhost\r\n\r\n", encoded).into_bytes()),
             ("post-echo", format!("POST /form-url-encoded-enctype-post-method HTTP/1.1\r\nHost: localhost\r\nContent-Type: application/x-www-form-urlencoded\r\nContent-Length: {}\r\n\r\n{}", body.len(), body).into_bytes()),
         ];
         for (route, req) in reqs {
             if route == "get-echo" && c.fields.is_empty() { continue; }
+            // the whole request has to fit the server's 10000-byte buffer
+            if req.len() > 9990 { continue; }
             let o = inproc::serve(&req, Transport::default(), 10000, AppKind::Real, Entry::Process);
             if let Err((m, loc)) = &o.result { problems.push((format!("panic:{}:{}", super::common::panic_module(loc), m), format!("{} panicked at {}", route, loc))); continue; }
             match mhttp::parse(&o.out) {
